@@ -453,6 +453,9 @@ where R: Ring, for<'x> &'x R: RingOps<R> {
                 (k0_l0, k0_l1, id_f.part_eval(&h, &t))
             });
 
+            #[cfg(yui_verif)]
+            yui::verif::point("tng:connect-edges:before-write", Some(&|| lock.try_write().is_ok()));
+
             let mut this = lock.write().unwrap();
 
             Iterator::chain(e1, e2).for_each(|(k, l, f)| { 
